@@ -26,8 +26,8 @@ logging.getLogger("onnx_ir").setLevel(logging.CRITICAL)
 PROPERTY = "C14"
 LEVEL = "exploration"
 TIERS = {
-    "quick": {"wall": 45, "chunk": 20, "shrink_budget": 250, "shrink_wall": 60},
-    "thorough": {"wall": 900, "chunk": 50, "shrink_budget": 500, "shrink_wall": 240},
+    "quick": {"wall": 36, "optimize_wall": 9, "chunk": 20, "shrink_budget": 250, "shrink_wall": 60},
+    "thorough": {"wall": 900, "optimize_wall": 120, "chunk": 50, "shrink_budget": 500, "shrink_wall": 240},
 }
 RULE = (
     "each run = one seeded model (typed checker-valid vocabulary: elementwise chains, duplicated subexpressions, Constant forms, multi-output "
